@@ -873,6 +873,180 @@ def check_make_data(res, H, sources, classes, repo):
             res.ok("R-MAKEDATA", key, smp)
 
 
+COPY_CALLS = {("copy", "copy"), ("copy", "deepcopy"), ("np", "array"), ("np", "copy"), ("numpy", "array"), ("numpy", "copy"),
+              ("jp", "array"), ("jnp", "array")}
+
+
+def _is_copy_call(v):
+    """`copy.copy(x)`, `np.array(x)`, `x.copy()` ..."""
+    import ast
+    if not isinstance(v, ast.Call):
+        return False
+    f = v.func
+    if isinstance(f, ast.Attribute):
+        if isinstance(f.value, ast.Name) and (f.value.id, f.attr) in COPY_CALLS:
+            return True
+        if f.attr == "copy" and not v.args:
+            return True
+    return False
+
+
+def check_host_copy(res, sources):
+    """JAX back end transfer functions (`_put_*_jax`): jax.device_put may alias aligned host memory (zero-copy on CPU) and
+    is asynchronous, so the numpy views into the live MjData / MjModel must be copied before they are handed over; otherwise
+    the device value changes when the host object is stepped or reset, and put/get no longer round-trips."""
+    import ast
+    rel = f"{MJX}/io.py"
+    res.rule("R-HOSTCOPY", "host arrays splatted into types.Data/Model by the JAX transfer functions are copies", floor=2)
+    n = 0
+
+    def reads_host(value, params):
+        """the expression takes attributes of a parameter by name: getattr(<param>, ..) (a numpy view into the host object)"""
+        return any(isinstance(c, ast.Call) and isinstance(c.func, ast.Name) and c.func.id == "getattr" and c.args and
+                   isinstance(c.args[0], ast.Name) and c.args[0].id in params for c in ast.walk(value))
+    # module functions that return a dict of host views
+    view_fns = set()
+    for f_ in sources["io.py"].body:
+        if isinstance(f_, ast.FunctionDef):
+            ps_ = {a.arg for a in f_.args.args}
+            dicts_ = {a.targets[0].id for a in ast.walk(f_) if isinstance(a, ast.Assign) and len(a.targets) == 1 and
+                      isinstance(a.targets[0], ast.Name) and isinstance(a.value, (ast.DictComp, ast.Dict)) and reads_host(a.value, ps_)}
+            if any(isinstance(r, ast.Return) and isinstance(r.value, ast.Name) and r.value.id in dicts_ for r in ast.walk(f_)):
+                view_fns.add(f_.name)
+    for fn in ast.walk(sources["io.py"]):
+        if not isinstance(fn, ast.FunctionDef) or not (fn.name.startswith("_put_") and fn.name.endswith("_jax")):
+            continue
+        params = {a.arg for a in fn.args.args}
+        host = set()
+        for a in ast.walk(fn):
+            if isinstance(a, ast.Assign) and len(a.targets) == 1 and isinstance(a.targets[0], ast.Name):
+                v_ = a.value
+                if isinstance(v_, (ast.DictComp, ast.Dict)) and reads_host(v_, params) and not (isinstance(v_, ast.DictComp) and _is_copy_call(v_.value)):
+                    host.add(a.targets[0].id)
+                elif isinstance(v_, ast.Call) and isinstance(v_.func, ast.Name) and v_.func.id in view_fns:
+                    host.add(a.targets[0].id)
+        puts = [c for c in ast.walk(fn) if isinstance(c, ast.Call) and isinstance(c.func, ast.Attribute) and c.func.attr == "device_put"]
+        if not puts:
+            continue
+        # locals bound to a dict of copies
+        copied = set()
+        for a in ast.walk(fn):
+            if isinstance(a, ast.Assign) and len(a.targets) == 1 and isinstance(a.targets[0], ast.Name) and \
+                    isinstance(a.value, ast.DictComp) and _is_copy_call(a.value.value):
+                copied.add(a.targets[0].id)
+        for c in ast.walk(fn):
+            if not (isinstance(c, ast.Call) and isinstance(c.func, ast.Attribute) and isinstance(c.func.value, ast.Name)
+                    and c.func.value.id == "types"):
+                continue
+            for kw in c.keywords:
+                if kw.arg is not None:
+                    continue
+                v = kw.value
+                names_ = {x.id for x in ast.walk(v) if isinstance(x, ast.Name)}
+                if not (names_ & host):
+                    continue        # a dict of freshly computed values
+                n += 1
+                ok = (isinstance(v, ast.DictComp) and _is_copy_call(v.value)) or (isinstance(v, ast.Name) and v.id in copied)
+                key = f"{fn.name}:types.{c.func.attr}"
+                if ok:
+                    res.ok("R-HOSTCOPY", key, {"line": c.lineno})
+                else:
+                    res.bad("R-HOSTCOPY", key, rel, c.lineno,
+                            f"{fn.name} splats `**{ast.unparse(v)[:60]}` into types.{c.func.attr} without copying the values: they are "
+                            f"numpy views into the live host object and jax.device_put can alias them (CPU, x64) — the device value "
+                            f"then follows later mj_step / mj_resetData of the source")
+    if n == 0:
+        raise AnalysisError(f"{rel}: no `_put_*_jax` function splatting host fields into types.* found")
+
+
+def check_static_hash(res, sources):
+    """Static numpy fields are pytree metadata; their hash is the jit cache key.  The key must be computed from the array's
+    content whenever a wrapper is built (every flatten): every path of the key computation passes a hashlib digest of the
+    array, none returns a remembered value."""
+    import ast
+    rel = f"{MJX}/dataclasses.py"
+    res.rule("R-STATIC-HASH", "the hash key of static numpy fields is recomputed from the content on every path", floor=1)
+    mod = sources.get("dataclasses.py")
+    if mod is None:
+        raise AnalysisError(f"anchor vanished: {rel}")
+    wrappers = [c for c in ast.walk(mod) if isinstance(c, ast.ClassDef) and
+                any(isinstance(f, ast.FunctionDef) and f.name == "__hash__" for f in c.body) and
+                any("hashlib" in ast.unparse(f) for f in c.body if isinstance(f, ast.FunctionDef))]
+    if len(wrappers) != 1:
+        raise AnalysisError(f"{rel}: the numpy hash wrapper class (defines __hash__, uses hashlib) was not identified: "
+                            f"{[c.name for c in wrappers]}")
+    cls = wrappers[0]
+    methods = {f.name: f for f in cls.body if isinstance(f, ast.FunctionDef)}
+
+    def is_digest(node):
+        return any(isinstance(c, ast.Call) and "hashlib." in ast.unparse(c.func) for c in ast.walk(node))
+
+    def calls_method(node):
+        out = []
+        for c in ast.walk(node):
+            if isinstance(c, ast.Call) and isinstance(c.func, ast.Attribute) and isinstance(c.func.value, ast.Name) and \
+                    c.func.value.id in ("self", "cls", cls.name) and c.func.attr in methods:
+                out.append(c.func.attr)
+        return out
+
+    def always(stmts, seen):
+        """every path through stmts computes a digest before leaving (return) or falling through; returns
+        (digest on all fall-through paths, offending return or None)"""
+        done = False
+        for st in stmts:
+            if isinstance(st, ast.Return):
+                if not done and not (st.value is not None and (is_digest(st.value) or any(ok_method(m_, seen) for m_ in calls_method(st.value)))):
+                    return done, st
+                return True, None
+            if isinstance(st, ast.If):
+                t_done, t_bad = always(st.body, seen)
+                e_done, e_bad = always(st.orelse, seen) if st.orelse else (False, None)
+                if not done and (t_bad or e_bad):
+                    return done, (t_bad or e_bad)
+                if t_done and e_done and st.orelse:
+                    done = True
+                continue
+            if isinstance(st, (ast.Try,)):
+                b_done, b_bad = always(st.body, seen)
+                if not done and b_bad:
+                    return done, b_bad
+                for h in st.handlers:
+                    h_done, h_bad = always(h.body, seen)
+                    if not done and not b_done and h_bad:
+                        return done, h_bad
+                done = done or b_done
+                continue
+            if isinstance(st, (ast.For, ast.While, ast.With)):
+                continue
+            if is_digest(st) or any(ok_method(m_, seen) for m_ in calls_method(st)):
+                done = True
+        return done, None
+
+    def ok_method(name, seen):
+        if name in seen:
+            return False
+        d_, bad_ = always(methods[name].body, seen | {name})
+        return d_ and bad_ is None
+    init = methods.get("__init__")
+    if init is None:
+        raise AnalysisError(f"{rel}: {cls.name} has no __init__")
+    d_, bad_ = always(init.body, {"__init__"})
+    # report the offending return inside a helper, if any
+    if not d_ or bad_ is not None:
+        off = bad_
+        if off is None:
+            for m_ in calls_method(init):
+                _d, b2 = always(methods[m_].body, {"__init__", m_})
+                if b2 is not None:
+                    off = b2
+        res.bad("R-STATIC-HASH", f"{cls.name}:content-digest", rel, (off or init).lineno,
+                f"{cls.name} does not digest the array content on every path of its key computation"
+                + (f" (`{ast.unparse(off)[:60]}` returns without hashing)" if off is not None else "") +
+                ": an in-place change of a static field keeps the old jit cache key and replays the stale trace")
+    else:
+        res.ok("R-STATIC-HASH", f"{cls.name}:content-digest", {"line": init.lineno})
+
+
 def run(res, tier):
     repo = os.path.abspath(REPO)
     H = cheaders.load(repo)
@@ -884,6 +1058,8 @@ def run(res, tier):
     _, n_copy, foreign = c43.check_attrs(res, H, sources, classes, copy_structs=("mjData", "mjModel", "mjContact"),
                                          rule="R-FIELDS", explicit=False)
     check_make_data(res, H, sources, classes, repo)
+    check_host_copy(res, sources)
+    check_static_hash(res, sources)
     res.count("state_elements", len(res.extra.get("c_state_table", {})))
     res.count("copied_fields", n_copy)
     res.extra["copy_loops_over_foreign_classes_not_decided"] = foreign
